@@ -205,6 +205,8 @@ def A(name, n=0):
 
 
 def ST(name, val):
+    if isinstance(val, str) and len(val) > 1:
+        val = "".join([val[:1], val[1:]])  # equal but not interned (as read from a file): variants must be selected by value
     return Arg(name, 0, val, True)
 
 
